@@ -40,7 +40,8 @@ class Unsupported:
     pass
 
 
-UNITS = [units.g, units.mg / units.L, units.fL, units.mmol / units.L ** 2]
+UNITS = [units.g, units.mg / units.L, units.fL, units.mmol / units.L ** 2, units.nanometer,
+         units.nanogram / units.mL, units.dimensionless]
 NUMS = [0, -7, 2 ** 53 - 1, 1.5, -2.25e-7, 1e300, 5e-324, 3]
 STRS = ['', 'abc', 'hi [there]!', '!units', 'x]', '!units[', 'é\n"q"']
 FIN_MAGS = [0, -1.5, 1e300, 5e-324, 2 ** 53 - 1, 3, 0.1]
